@@ -25,6 +25,9 @@ class VC(Scheduler):
         self.vc: Dict[ClassId, SimTime] = dict()
         self.aux_vc: Dict[ClassId, SimTime] = dict()
         self.store = PriorityStore(env)
+        self.arrivals: int = 0
+        """Number of packets accepted so far: equal stamps of one instant are
+        served in arrival order"""
         for class_id in vticks.keys():
             self.aux_vc[class_id] = 0
             self.vc[class_id] = 0
@@ -54,4 +57,7 @@ class VC(Scheduler):
         self.add_packet_to_queue(packet)
         # transmite packets by the order of increasing stamp values
         # use aux_vc as stamp value
-        self.store.put(PriorityItem((self.aux_vc[class_id], now), packet))
+        self.arrivals += 1
+        self.store.put(
+            PriorityItem((self.aux_vc[class_id], now, self.arrivals), packet)
+        )
